@@ -126,3 +126,19 @@ Definition bore_witness : @srow FNum :=
   ((0x1.c5f52a2fdcc89p-3, 0x1.617fa3e939600p-2, (-0x1.dc28f5c28f5c4p-1)), (0, 0, 1),
    (0x1.a4189374bc6a8p-1, 0x1.38d4fdf3b645ap+0, 0x1.dc28f5c28f5c3p+0, 0, 0x1.68p+8))%float.
 Definition mu0_f : float := 0x1.515370f8e0229p-20%float.
+
+(* ------------------------------------------------------------------ the prologue of BHJM_cylinder_segment (/repo 526c29b):
+   section angles (degrees, here integers) reduced by whole turns into [-360, 360]
+     turns = where(phi2 > 360, ceil((phi2-360)/360), where(phi1 < -360, -ceil((-360-phi1)/360), 0)) *)
+Definition zceil_div (a b : Z) : Z := - ((- a) / b).
+Definition seg_turns (phi1 phi2 : Z) : Z :=
+  if 360 <? phi2 then zceil_div (phi2 - 360) 360
+  else if phi1 <? -360 then - zceil_div (-360 - phi1) 360
+  else 0.
+Definition seg_reduce (phi1 phi2 : Z) : Z * Z :=
+  let t := seg_turns phi1 phi2 in (phi1 - 360 * t, phi2 - 360 * t).
+
+(* (phi1, phi2, reduced phi1, reduced phi2) as observed on the implementation *)
+Definition reduce_case : Type := (Z * Z * Z * Z)%type.
+Definition reduce_case_ok (c : reduce_case) : bool :=
+  let '(p1, p2, q1, q2) := c in let '(r1, r2) := seg_reduce p1 p2 in (r1 =? q1) && (r2 =? q2).
